@@ -682,6 +682,45 @@ def _parsed_owner_clause(res):
                     res.violation('C17.model', f'parsed-list-differs-from-model|parsed-{owner}|{TEXT_CLASS[t]}', case, m.text(), got['text'])
 
 
+def _handover_clause(res, only=None):
+    """a list object that one @media rule owns is assigned to the media of a second rule: the second rule's list reads - and, after the
+    same edit, still reads - like a stand-alone list of the same text (the empty list included)"""
+    for t in ('', 'tv', 'all', 'tv, print', 'not tv'):
+        for edit in ('print', 'all', 'tv'):
+            case = {'kind': 'handover', 'text': t, 'edit': edit}
+            if only is not None and case != only:
+                continue
+            res.evaluations += 1
+            res.transitions += 1
+            res.validated += 1
+            res.clauses['C17.owner'] += 1
+            guard.pristine()
+            try:
+                with guard.watchdog(10):
+                    a = cssutils.css.CSSMediaRule(mediaText=t or None)
+                    b = cssutils.css.CSSMediaRule(mediaText='tv')
+                    alone = cssutils.stylesheets.MediaList(t or None)
+                    b.media = a.media
+                    obs = []
+                    for ml in (b.media, alone):
+                        o1 = _observe(ml)
+                        try:
+                            ml.appendMedium(edit)
+                            r = 'returned'
+                        except Exception as e:
+                            r = type(e).__name__
+                        obs.append([o1, r, _observe(ml)])
+            except guard.Timeout:
+                res.violation('C17.owner', 'timeout|handover', case, 'terminates', 'timeout')
+                continue
+            except Exception as e:
+                res.violation('C17.owner', f'{guard.crash_site(e)}|handover', case, 'no exception', repr(e)[:200])
+                continue
+            res.outcomes.add(h64(['handover', obs[1]]))
+            if obs[0] != obs[1]:
+                res.violation('C17.owner', f'handed-over-list-differs-from-stand-alone|{"empty" if not t else "non-empty"}', case, obs[1], obs[0])
+
+
 # a member of the list is a query object of its own: its text takes one query (probe: judged, not expanded)
 MEMBER_TEXTS = {'tv': 'tv', 'not print': 'not print', 'print and (color)': 'print and (color)', '3d': None, 'tv 3d': None, 'tv, print': None,
                 'tv and (color), print': None, 'tv,': None, '': None}
@@ -753,6 +792,7 @@ def expand(batch, tier, seed):
         if not h:
             ops = [['seed', ow, sd] for ow in OWNERS for sd in SEEDS]
             _parsed_owner_clause(res)
+            _handover_clause(res)
         else:
             guard.pristine()
             w, m = _build(h)
@@ -1402,6 +1442,8 @@ def replay(case, tier, seed):
             if v['case'] == case:
                 res.violations[sig] = v
                 res.violation_counts[sig] += 1
+    elif k == 'handover':
+        _handover_clause(res, only=case)
     elif k == 'member':
         full = Result(seed)
         _member_probe(full, [list(op) for op in case['history']])
